@@ -312,6 +312,9 @@ func modeResp(c *Ctx) {
 					continue
 				}
 				c.checkWritten(op, ri, v, raw, w, in, jv)
+				if i == 0 {
+					c.Sample(map[string]any{"operation": op.Key, "implementer": ri.T.Name(), "documented_response": ri.Doc.Status, "status": w.Status, "headers": w.Frozen, "body": trunc(w.Body.String(), 120)})
+				}
 				// the public Write method must give the same bytes
 				if i%8 == 0 {
 					v2 := v
@@ -748,6 +751,9 @@ func modeClient(c *Ctx) {
 					}
 					c.Viol("response-kind", "the client returned another response kind than the handler sent", in, ri.T.Name(), tn)
 					continue
+				}
+				if i == 0 {
+					c.Sample(map[string]any{"operation": op.Key, "response_kind": ri.T.Name(), "sent": trunc(dumpValue(v), 160), "received_equal": true})
 				}
 				if d := diffResponse(v, got, raw); d != "" {
 					c.Viol("response-differs", "the client's response value differs from the handler's: "+stripIndex(d), in, "equal", d)
